@@ -5,6 +5,7 @@ import re
 from sa.model import AnalysisError, Unknown, norm, unwrap
 from sa.query import Facts, call_name, find_calls, try_fold, calls_in, defs_of
 from sa.prov import Prov
+from sa.decide import Walker, completions, cmp_parts, values_at, return_values
 from .common import doc
 
 TECHNIQUE = ("dominator and reaching-definition rules on the chain walk, provenance expansion of the "
@@ -40,150 +41,178 @@ def run(run):
     values(run, F, PV, C, E)
 
 
+def _while_nodes(g, loop):
+    head = [n for n in g.nodes if n.kind == "join" and n.ast is loop and n.note == "while-head"]
+    after = [n for n in g.nodes if n.kind == "join" and n.ast is loop and n.note == "while-after"]
+    return (head[0], after[0]) if len(head) == 1 and len(after) == 1 else (None, None)
+
+
 def chain_walk(run, F, PV, C):
+    """R1, decided on the decision tables of the two loops' iterations (any surface shape of `while`)."""
     P, A = run.P, run.A
-    run.rule("R1", "HSMCertificate.validate_and_get_values (shared by v2): (a) the climb from a target "
-             "follows signed_by and its only exit is `current.signed_by == ROOT_ELEMENT`; (b) inside the "
-             "validation loop the (True, ...) store and the advance to the next element are dominated by "
-             "a successful current.is_valid(current_certifier); (c) current_certifier is defined only as "
-             "the root_of_trust parameter and as the element just validated; (d) the failure store names "
-             "current.name and is followed by break; (e) per-target state is re-initialised inside the "
-             "target loop and the method reads/writes no other instance state.")
+    run.rule("R1", "HSMCertificate.validate_and_get_values (shared by v2), decided on decision tables so that the loops' surface "
+             "shape does not matter. Per target: before the climb chain = [] and cur = self._elements[target]. Climb iteration, "
+             "with ROOT = (cur.signed_by == self.ROOT_ELEMENT): ROOT -> leave the loop with nothing changed; not ROOT -> "
+             "chain.append(cur) then cur = self._elements[cur.signed_by], next iteration. Between the loops cert = the "
+             "root_of_trust parameter and cur / chain are untouched. Validation iteration, with V = cur.is_valid(cert), E = chain "
+             "is empty: not V -> result[target] = (False, cur.name) and leave; V and E -> result[target] = (True, "
+             "cur.get_value(), cur.get_tweak()) and leave; V and not E -> cert = cur, cur = chain.pop(), next iteration. Nothing "
+             "is stored in result afterwards; result is a fresh dict whose entries are never read back; no other instance state "
+             "is read or written.")
     fn = P.method(C, "validate_and_get_values")
     g = A.cfg(fn, C)
     root_param = fn.params[1]
-    loops = _loops(fn)
-    run.floor("R1", "while loops in validate_and_get_values", len(loops), 2)
-    tl = [n for n in ast.walk(fn.node) if isinstance(n, ast.For)]
-    run.require(len(tl) == 1 and norm(tl[0].iter) == "self._targets", "the target loop vanished")
+    tl = [n for n in A.own_nodes(fn) if isinstance(n, ast.For) and norm(n.iter) == "self._targets"]
+    run.require(len(tl) == 1 and isinstance(tl[0].target, ast.Name), "validate_and_get_values: the loop over self._targets vanished (idiom not understood)")
     tloop = tl[0]
-    climb, valid = loops[0], loops[1]
-    # (a) climb loop
-    brk = [n for n in ast.walk(climb) if isinstance(n, ast.Break)]
-    climb_exits = []
-    for b in brk:
-        for bn in g.nodes_of_stmt(b) if hasattr(g, "nodes_of_stmt") else []:
-            climb_exits.append(bn)
-    # exits of the loop = nodes inside the loop with a successor outside; compute via node sets
-    inside = set()
-    for st in ast.walk(climb):
-        for cn in g.nodes_of(st):
-            inside.add(cn)
-    for n in g.nodes:
-        if n.kind in ("T", "F") and n.cond in inside:
-            inside.add(n)
-        if n.kind == "stmt" and isinstance(n.ast, ast.Break) and any(n.ast is b for b in brk):
-            inside.add(n)
-    root_T = [n for n in g.nodes if n.kind == "T" and isinstance(n.ast, ast.Compare) and n.cond in inside
-              and norm(n.ast) == "current.signed_by == self.ROOT_ELEMENT"]
-    run.check("R1", len(root_T) == 1, "climb tests `current.signed_by == self.ROOT_ELEMENT`",
-              key="validate_and_get_values|climb|root-test", where=fn.loc(climb),
-              message="the climb loop no longer stops on `current.signed_by == self.ROOT_ELEMENT`")
-    after = [n for n in g.nodes if n.kind == "join" and n.ast is climb and n.note == "while-after"]
-    run.require(len(after) == 1, "climb loop structure not understood")
-    if root_T:
-        # every way from the loop head to the code after the loop passes the root test's true edge
-        head = [n for n in g.nodes if n.kind == "join" and n.ast is climb and n.note == "while-head"][0]
-        p = g.witness_path(head, after[0], avoid={root_T[0]},
-                           edge_ok=lambda a, b: not g.is_exc_edge(a, b))
-        run.check("R1", p is None, "the only exit of the climb is reaching the root element",
-                  key="validate_and_get_values|climb|other-exit", where=fn.loc(climb),
-                  message="the climb from a target towards the root can stop before the element signed by "
-                          "the root is reached: validation would then start below the root of trust",
-                  witness=g.describe_path(p) if p else None)
-    steps = [n for n in ast.walk(climb) if isinstance(n, ast.Assign) and norm(n.targets[0]) == "current"]
-    run.check("R1", len(steps) == 1 and norm(steps[0].value) == "self._elements[current.signed_by]",
-              "climb step is current = self._elements[current.signed_by]",
-              key="validate_and_get_values|climb|step", where=fn.loc(climb),
-              message="the climb no longer moves to `self._elements[current.signed_by]`")
-    apps = [n for n in ast.walk(climb) if isinstance(n, ast.Call) and call_name(n) == "append"]
-    run.check("R1", len(apps) == 1 and norm(apps[0]) == "chain.append(current)",
-              "every element below the root is pushed on the chain",
-              key="validate_and_get_values|climb|push", where=fn.loc(climb),
-              message="the climb does not push every visited element on the chain (`chain.append(current)`)")
-    for a in apps:
-        for an in g.nodes_of(a):
-            for s in steps:
-                run.check("R1", all(g.dominates(an, sn) for sn in g.nodes_of(s)),
-                          "push dominates the step", key="validate_and_get_values|climb|push-before-step",
-                          where=fn.loc(a), message="an element can be skipped: the climb step is not dominated by the push")
-    # (b) validation loop
-    iv = [c for c in find_calls(A, fn, "is_valid")]
-    run.check("R1", len(iv) == 1 and norm(iv[0]) == "current.is_valid(current_certifier)",
-              "one verification site: current.is_valid(current_certifier)",
-              key="validate_and_get_values|is_valid-site", where=fn.loc(),
-              message=f"verification sites: {[norm(c) for c in iv]}; expected exactly "
-                      "`current.is_valid(current_certifier)`")
-    stores = [n for n in ast.walk(fn.node) if isinstance(n, ast.Assign) and norm(n.targets[0]) == "result[target]"]
-    true_st = [s for s in stores if isinstance(s.value, ast.Tuple) and isinstance(s.value.elts[0], ast.Constant)
-               and s.value.elts[0].value is True]
-    false_st = [s for s in stores if isinstance(s.value, ast.Tuple) and isinstance(s.value.elts[0], ast.Constant)
-                and s.value.elts[0].value is False]
-    run.check("R1", len(true_st) == 1 and len(false_st) == 1 and len(stores) == 2,
-              "one valid store and one invalid store", key="validate_and_get_values|stores", where=fn.loc(),
-              message=f"result stores: {[norm(s)[:50] for s in stores]}")
-    adv = [n for n in ast.walk(valid) if isinstance(n, ast.Assign)
-           and norm(n.targets[0]) in ("current_certifier", "current")]
-    for s in true_st + adv:
-        for sn in g.nodes_of(s):
-            ok = any(f.kind == "call" and f.pol and norm(f.expr) == "current.is_valid(current_certifier)"
-                     for f in F.local(fn, C, sn))
-            run.check("R1", ok, f"`{norm(s)[:40]}` only after a successful is_valid",
-                      key=f"validate_and_get_values|{norm(s.targets[0])}|after-valid", where=fn.loc(s),
-                      message=f"`{norm(s)[:60]}` is reachable without the current element having verified")
-    for s in true_st:
-        for sn in g.nodes_of(s):
-            ok = any(f.kind == "cmp" and f.op == "==" and norm(f.left) == "len(chain)" and norm(f.right) == "0"
-                     for f in F.local(fn, C, sn))
-            run.check("R1", ok, "valid verdict only when the chain is exhausted (leaf reached)",
-                      key="validate_and_get_values|valid-store|leaf", where=fn.loc(s),
-                      message="a target can be reported valid before its own element was verified "
-                              "(chain not exhausted)")
-    # (c) certifier definitions
-    cdefs = defs_of(A, fn, "current_certifier")
-    vals = sorted(norm(d.value) for d in cdefs)
-    run.check("R1", vals == sorted([root_param, "current"]),
-              "current_certifier defined only as root_of_trust and as the validated element",
-              key="validate_and_get_values|current_certifier|definitions", where=fn.loc(),
-              message=f"current_certifier is defined as {vals}; it must be the root-of-trust parameter first and "
-                      "then the element just validated")
-    for d in cdefs:
-        if norm(d.value) == root_param:
-            inside_t = any(d is x for x in ast.walk(tloop))
-            in_loop = any(d is x for x in ast.walk(valid))
-            run.check("R1", inside_t and not in_loop, "root of trust assigned per target, before the validation loop",
-                      key="validate_and_get_values|current_certifier|root-init", where=fn.loc(d),
-                      message="current_certifier is not (re)initialised to the root of trust for every target")
-        if norm(d.value) == "current":
-            # followed by current = chain.pop()
-            pops = [n for n in ast.walk(valid) if isinstance(n, ast.Assign) and norm(n.targets[0]) == "current"]
-            run.check("R1", len(pops) == 1 and norm(pops[0].value) == "chain.pop()" and pops[0].lineno > d.lineno,
-                      "next element is chain.pop() after the certifier moved down",
-                      key="validate_and_get_values|advance|pop", where=fn.loc(d),
-                      message="the walk down does not take the next element with chain.pop() after updating the certifier")
-    # (d) failure store
-    for s in false_st:
-        ok = len(s.value.elts) == 2 and norm(s.value.elts[1]) == "current.name"
-        blk = _block_of(fn.node, s)
-        nxt = blk[blk.index(s) + 1] if blk and blk.index(s) + 1 < len(blk) else None
-        run.check("R1", ok and isinstance(nxt, ast.Break), "failure names current.name and stops",
-                  key="validate_and_get_values|invalid-store", where=fn.loc(s),
-                  message="the failing verdict does not name the element that failed (current.name) or the "
-                          "walk continues after a failure")
-        for sn in g.nodes_of(s):
-            ok2 = any(f.kind == "call" and not f.pol and norm(f.expr) == "current.is_valid(current_certifier)"
-                      for f in F.local(fn, C, sn))
-            run.check("R1", ok2, "failure store only when is_valid failed",
-                      key="validate_and_get_values|invalid-store|guard", where=fn.loc(s),
-                      message="the failing verdict is stored on a path where verification did not fail")
-    # (e) state
-    inits = {"chain": "[]", "current": "self._elements[target]"}
-    for nm, want in inits.items():
-        ds = [d for d in defs_of(A, fn, nm) if norm(d.value) == want]
-        ok = len(ds) == 1 and any(ds[0] is x for x in ast.walk(tloop)) and not any(ds[0] is x for l in loops for x in ast.walk(l))
-        run.check("R1", ok, f"`{nm} = {want}` inside the target loop",
-                  key=f"validate_and_get_values|init|{nm}", where=fn.loc(),
-                  message=f"`{nm}` is not re-initialised to `{want}` for every target")
+    TGT = tloop.target.id
+    iv = find_calls(A, fn, "is_valid")
+    run.require(len(iv) >= 1, "validate_and_get_values: no is_valid call (anchor vanished)")
+    run.check("R1", len(iv) == 1, "one verification site", key="validate_and_get_values|is_valid-site", where=fn.loc(),
+              message=f"verification sites: {[norm(c) for c in iv]}; expected exactly one `<element>.is_valid(<certifier>)`")
+    ivc = iv[0]
+    run.require(isinstance(ivc.func.value, ast.Name) and len(ivc.args) == 1 and isinstance(ivc.args[0], ast.Name) and not ivc.keywords,
+                "validate_and_get_values: is_valid is not called as <name>.is_valid(<name>) (idiom not understood)")
+    X, Y = ivc.func.value.id, ivc.args[0].id
+    loops = [n for n in A.own_nodes(fn) if isinstance(n, ast.While) and any(n is x for x in ast.walk(tloop))]
+    valid = [l for l in loops if any(ivc is x for x in ast.walk(l))]
+    climb = [l for l in loops if l not in valid and any(isinstance(x, ast.Attribute) and x.attr == "signed_by" for x in ast.walk(l))]
+    run.require(len(valid) == 1 and len(climb) == 1, "validate_and_get_values: expected one `while` climbing signed_by and one `while` around is_valid "
+                f"inside the target loop, found {len(climb)} / {len(valid)} (idiom not understood)")
+    climb, valid = climb[0], valid[0]
+    ch, ca = _while_nodes(g, climb)
+    vh, va = _while_nodes(g, valid)
+    run.require(ch is not None and vh is not None, "validate_and_get_values: loop structure not understood")
+    fh = [n for n in g.nodes if n.kind == "for" and n.ast is tloop]
+    ft = [n for n in g.nodes if n.kind == "T" and n.note == "has-item" and n.cond in fh]
+    run.require(len(fh) == 1 and len(ft) == 1, "validate_and_get_values: target loop structure not understood")
+    state = {}
+
+    def is_name(e, nm):
+        return isinstance(e, ast.Name) and e.id == nm
+
+    def climb_atom(e):
+        cp = cmp_parts(e)
+        if cp is None:
+            return None
+        l, op, r = cp
+        if op in ("==", "!=", "is", "is not"):
+            t = {norm(l), norm(r)}
+            if t == {f"{X}.signed_by", "self.ROOT_ELEMENT"}:
+                return ("ROOT", op in ("==", "is"))
+        return None
+
+    # ---- (a) climb iteration
+    W = Walker(A, fn, C, climb_atom)
+    n_cases = 0
+    for lf in W.walk(ch, stops={ch, ca}):
+        kind = "next" if lf.kind == "stop" and lf.node is ch else ("leave" if lf.kind == "stop" and lf.node is ca else f"{lf.kind} at line {lf.node.lineno}")
+        pushes = [v for k, st, v in lf.effects if k == "expr" and isinstance(v, ast.Call) and call_name(v) == "append"
+                  and isinstance(v.func.value, ast.Name)]
+        others = [st for k, st, v in lf.effects if k in ("store", "delete", "aug") or (k == "expr" and v not in pushes and isinstance(v, ast.Call)
+                                                                                      and call_name(v) in ("pop", "append", "extend", "insert", "clear", "remove"))]
+        for v in completions({k: b for k, b in lf.pc.items() if k == "ROOT"}, ["ROOT"]):
+            n_cases += 1
+            if v["ROOT"]:
+                ok = kind == "leave" and not pushes and not others and X not in lf.env and X not in lf.bind
+                run.check("R1", ok, "[ROOT] -> the climb ends with nothing changed", key="validate_and_get_values|climb|root-exit", where=fn.loc(climb),
+                          message=f"when the element is signed by the root the climb does `{kind}` (pushes: {len(pushes)}, cur changed: {X in lf.env or X in lf.bind}); "
+                                  "it must simply end")
+            else:
+                okp = len(pushes) == 1 and len(pushes[0].args) == 1 and is_name(pushes[0].args[0], X)
+                if okp:
+                    if state.setdefault("CH", pushes[0].func.value.id) != pushes[0].func.value.id:
+                        okp = False
+                step = lf.env.get(X, lf.bind.get(X))
+                oks = step is not None and norm(step) == f"self._elements[{X}.signed_by]"
+                run.check("R1", kind == "next", "[not ROOT] -> the climb goes on", key="validate_and_get_values|climb|other-exit", where=fn.loc(climb),
+                          message=f"the climb from a target towards the root does `{kind}` although the element reached is not signed by the root: "
+                                  "validation would then start below the root of trust")
+                run.check("R1", okp and not others, "[not ROOT] -> exactly the element just visited is pushed on the chain", key="validate_and_get_values|climb|push",
+                          where=fn.loc(climb), message=f"a climb step pushes {[norm(p) for p in pushes]} (other effects: {[norm(o)[:40] for o in others]}); every element "
+                          "below the root must be pushed exactly once, before stepping up")
+                run.check("R1", oks, f"[not ROOT] -> {X} = self._elements[{X}.signed_by]", key="validate_and_get_values|climb|step", where=fn.loc(climb),
+                          message=f"the climb moves to `{norm(step) if step is not None else X + ' (unchanged)'}`, not to `self._elements[{X}.signed_by]`")
+    CH = state.get("CH")
+    run.require(CH is not None, "validate_and_get_values: the chain list could not be identified (idiom not understood)")
+
+    # ---- per-target initialisation and the hand-over between the loops
+    for lf in Walker(A, fn, C, lambda e: None).walk(ft[0], stops={ch}):
+        run.check("R1", lf.kind == "stop", "every target reaches the climb", key="validate_and_get_values|init|reaches-climb", where=fn.loc(tloop),
+                  message=f"for some target the method does `{lf.kind}` at line {lf.node.lineno} before climbing")
+        if lf.kind != "stop":
+            continue
+        for nm, want in ((CH, "[]"), (X, f"self._elements[{TGT}]")):
+            got = lf.env.get(nm, lf.bind.get(nm))
+            run.check("R1", got is not None and norm(got) == want, f"`{nm} = {want}` for every target", key=f"validate_and_get_values|init|{'chain' if nm == CH else 'current'}",
+                      where=fn.loc(), message=f"`{nm}` is `{norm(got) if got is not None else 'left over from the previous target'}` when the climb for a target starts, "
+                      f"not `{want}`")
+    for lf in Walker(A, fn, C, lambda e: None).walk(ca, stops={vh}):
+        run.check("R1", lf.kind == "stop", "the climb is followed by the validation loop", key="validate_and_get_values|handover|reaches-validation", where=fn.loc(),
+                  message=f"after the climb the method does `{lf.kind}` at line {lf.node.lineno} instead of validating")
+        if lf.kind != "stop":
+            continue
+        got = lf.env.get(Y, lf.bind.get(Y))
+        run.check("R1", got is not None and norm(got) == root_param, "the first certifier is the root of trust given by the caller",
+                  key="validate_and_get_values|current_certifier|root-init", where=fn.loc(),
+                  message=f"validation of a target starts with certifier `{norm(got) if got is not None else Y + ' (left over from the previous target)'}`, not with the "
+                          f"`{root_param}` parameter")
+        touched = [nm for nm in (X, CH) if nm in lf.env or nm in lf.bind] + [norm(v)[:40] for k, st, v in lf.effects if k == "expr" and isinstance(v, ast.Call)
+                                                                              and isinstance(v.func, ast.Attribute) and is_name(v.func.value, CH)]
+        run.check("R1", not touched, "element and chain untouched between the loops", key="validate_and_get_values|handover|untouched", where=fn.loc(),
+                  message=f"between the climb and the validation {touched} is modified")
+
+    # ---- (b) validation iteration
+    def valid_atom(e):
+        if isinstance(e, ast.Call) and call_name(e) == "is_valid" and norm(e) == f"{X}.is_valid({Y})":
+            return ("V", True)
+        if is_name(e, CH):
+            return ("E", False)
+        cp = cmp_parts(e)
+        if cp is not None:
+            l, op, r = cp
+            if norm(l) == f"len({CH})" and isinstance(r, ast.Constant) and r.value == 0 and op in ("==", "!=", ">", "<="):
+                return ("E", op in ("==", "<="))
+            if norm(l) == f"len({CH})" and isinstance(r, ast.Constant) and r.value == 1 and op in ("<", ">="):
+                return ("E", op == "<")
+        return None
+
+    def stores(lf):
+        return [(st, v) for k, st, v in lf.effects if k == "assign" and any(isinstance(t, ast.Subscript) and is_name(t.value, "result") for t in st.targets)]
+    for lf in Walker(A, fn, C, valid_atom).walk(vh, stops={vh, va}):
+        kind = "next" if lf.kind == "stop" and lf.node is vh else ("leave" if lf.kind == "stop" and lf.node is va else f"{lf.kind} at line {lf.node.lineno}")
+        sts = stores(lf)
+        for v in completions({k: b for k, b in lf.pc.items() if k in ("V", "E")}, ["V", "E"]):
+            n_cases += 1
+            desc = f"V={'T' if v['V'] else 'F'}, E={'T' if v['E'] else 'F'}"
+            if not v["V"]:
+                ok = kind == "leave" and len(sts) == 1 and norm(sts[0][0].targets[0]) == f"result[{TGT}]" and norm(sts[0][1]) == f"(False, {X}.name)"
+                run.check("R1", ok, "[not V] -> (False, failing element's name), stop", key="validate_and_get_values|invalid-store", where=fn.loc(valid),
+                          message=f"[{desc}] when an element does not verify the walk does `{kind}` and stores {[norm(s[1])[:60] for s in sts]}; it must store "
+                                  f"(False, {X}.name) for the target and stop")
+            elif v["E"]:
+                ok = kind == "leave" and len(sts) == 1 and norm(sts[0][0].targets[0]) == f"result[{TGT}]" \
+                    and norm(sts[0][1]) == f"(True, {X}.get_value(), {X}.get_tweak())"
+                run.check("R1", ok, "[V, chain exhausted] -> (True, value, tweak) of the leaf, stop", key="validate_and_get_values|valid-store", where=fn.loc(valid),
+                          message=f"[{desc}] when the last element verified the walk does `{kind}` and stores {[norm(s[1])[:60] for s in sts]}; it must store "
+                                  f"(True, {X}.get_value(), {X}.get_tweak()) and stop")
+            else:
+                cert = lf.env.get(Y, lf.bind.get(Y))
+                nxt = lf.env.get(X, lf.bind.get(X))
+                ok = kind == "next" and not sts
+                run.check("R1", ok, "[V, more elements] -> go on without a verdict", key="validate_and_get_values|valid-store|leaf", where=fn.loc(valid),
+                          message=f"[{desc}] with elements still to verify the walk does `{kind}` and stores {[norm(s[1])[:60] for s in sts]}: a target can be "
+                                  "reported valid before its own element was verified (chain not exhausted)")
+                run.check("R1", cert is not None and is_name(cert, X), "the verified element becomes the next certifier", key="validate_and_get_values|advance|certifier",
+                          where=fn.loc(valid), message=f"after an element verified the next certifier is `{norm(cert) if cert is not None else Y + ' (unchanged)'}`, not the "
+                          "element just verified")
+                run.check("R1", nxt is not None and norm(nxt) == f"{CH}.pop()", "the next element is chain.pop()", key="validate_and_get_values|advance|pop",
+                          where=fn.loc(valid), message=f"the walk down continues with `{norm(nxt) if nxt is not None else X + ' (unchanged)'}`, not with `{CH}.pop()`")
+    run.floor("R1", "decision-table cases of the two loops", n_cases, 5)
+    for lf in Walker(A, fn, C, lambda e: None).walk(va, stops={fh[0]}):
+        run.check("R1", lf.kind == "stop" and not stores(lf), "no verdict is written after the validation loop", key="validate_and_get_values|late-store", where=fn.loc(),
+                  message="result[...] is written (or the method leaves) after the validation loop of a target: the verdict just computed could be overwritten")
+    # ---- state
     _purity(run, fn, {"_targets", "_elements", "ROOT_ELEMENT"}, "validate_and_get_values")
     rdefs = defs_of(A, fn, "result")
     run.check("R1", len(rdefs) == 1 and norm(rdefs[0].value) == "{}" and not any(rdefs[0] is x for x in ast.walk(tloop)),
@@ -259,6 +288,8 @@ def element_check(run, F, PV, E):
     fn = top
     holders = [m for m in E.methods.values()
                if any(isinstance(n, ast.Call) and call_name(n) == "ecdsa_verify" for n in A.own_nodes(m))]
+    if top in holders:
+        holders = [top]
     run.require(len(holders) == 1, f"expected one method of HSMCertificateElement calling ecdsa_verify, found {len(holders)}")
     if holders[0] is not top:
         fn = holders[0]
@@ -284,52 +315,39 @@ def element_check(run, F, PV, E):
 
     def want(k):
         return _strip(f"{k}.ecdsa_verify(bytes.fromhex(self.message), {k}.ecdsa_deserialize(bytes.fromhex(self.signature)))")
-    rets = [n for n in A.own_nodes(fn) if isinstance(n, ast.Return)]
-    run.floor("R2", "returns in the verification function", len(rets), 1)
-    got = set()
-    for r in rets:
-        if isinstance(r.value, ast.Constant) and r.value.value is False:
-            run.ok("R2", "return False", fn.loc(r))
+
+    def atom(e):
+        cp = cmp_parts(e)
+        if cp is not None:
+            l, op, r = cp
+            if {norm(l), norm(r)} == {"self.tweak", "None"} and op in ("is", "is not", "==", "!="):
+                return ("NOTWEAK", op in ("is", "=="))
+        return None
+    n_ret = 0
+    for lf in Walker(A, fn, E, atom).walk(g.entry):
+        if lf.kind != "return":
             continue
-        for rn in g.nodes_of(r):
-            for v in PV.expand_consistent(fn, E, r.value, rn):
-                got.add(_strip(v))
-    exp = {want(plain), want(tw_key)}
-    run.check("R2", got == exp, "non-False returns are the specified verification expression (plain / tweaked)",
-              key="HSMCertificateElement.is_valid|verification-expression", where=fn.loc(),
-              message="is_valid's verdict is not the specified construction. Unexpected: "
-                      f"{sorted(got - exp)[:2]}; missing: {sorted(exp - got)[:2]}")
-    # tweak iff declared
-    tws = [n for n in A.own_nodes(fn) if isinstance(n, ast.Call) and call_name(n) == "tweak_add"]
-    run.check("R2", len(tws) == 1, "one tweak_add site", key="HSMCertificateElement.is_valid|tweak-sites",
-              where=fn.loc(), message=f"{len(tws)} tweak_add sites in is_valid")
-    for t in tws:
-        for tn in g.nodes_of(t):
-            ok = any(f.kind == "cmp" and f.op == "is not" and norm(f.left) == "self.tweak" and norm(f.right) == "None"
-                     for f in F.local(fn, E, tn))
-            run.check("R2", ok, "tweak applied only when declared", key="HSMCertificateElement.is_valid|tweak-guard",
-                      where=fn.loc(t), message="the certifier key is tweaked although the element declares no tweak")
-    # the plain variant must only be reachable when tweak is None: the verify return after the if
-    conds = [n for n in g.nodes if n.kind == "cond" and norm(n.ast) == "self.tweak is not None"]
-    run.check("R2", len(conds) == 1, "tweak presence test", key="HSMCertificateElement.is_valid|tweak-test",
-              where=fn.loc(), message="is_valid no longer tests `self.tweak is not None`")
-    if conds and tws:
-        tnode = [n for n in g.nodes if n.kind == "T" and n.cond is conds[0]][0]
-        twn = [x for t in tws for x in g.nodes_of(t)]
-        verify = [x for r in rets if not isinstance(r.value, ast.Constant) for x in g.nodes_of(r)]
-        for v in verify:
-            p = g.witness_path(tnode, v, avoid=set(twn), edge_ok=lambda a, b: not g.is_exc_edge(a, b))
-            run.check("R2", p is None, "a declared tweak is always applied before verifying",
-                      key="HSMCertificateElement.is_valid|tweak-skipped", where=fn.loc(),
-                      message="with a declared tweak, verification can proceed under the untweaked key")
-    # exceptions -> False
-    trys = [n for n in A.own_nodes(fn) if isinstance(n, ast.Try)]
-    okh = len(trys) == 1 and len([s_ for s_ in fn.node.body if not isinstance(s_, ast.Expr)]) == 1 and any(
-        (h.type is None or norm(h.type) in ("Exception", "BaseException")) and len(h.body) == 1
-        and isinstance(h.body[0], ast.Return) and isinstance(h.body[0].value, ast.Constant)
-        and h.body[0].value.value is False for h in trys[0].handlers)
-    run.check("R2", okh, "whole body guarded; exceptions give False", key="HSMCertificateElement.is_valid|handler",
-              where=fn.loc(), message="is_valid is not entirely inside `try: ... except Exception: return False`")
+        n_ret += 1
+        v = _strip(norm(lf.deep(lf.node.ast.value))) if lf.node.ast.value is not None else "None"
+        if v == "False":
+            run.ok("R2", "return False", fn.loc(lf.node.ast))
+            continue
+        for val in completions({k: b for k, b in lf.pc.items() if k == "NOTWEAK"}, ["NOTWEAK"]):
+            w = want(plain) if val["NOTWEAK"] else want(tw_key)
+            which = "no tweak declared" if val["NOTWEAK"] else "a tweak is declared"
+            run.check("R2", v == w, f"[{which}] the verdict is the specified verification expression",
+                      key=f"HSMCertificateElement.is_valid|verification-expression|{'plain' if val['NOTWEAK'] else 'tweaked'}", where=fn.loc(lf.node.ast),
+                      message=f"when {which}, is_valid's verdict is `{v[:300]}`; the specified construction is `{w}`")
+    run.floor("R2", "returns in the verification function", n_ret, 1)
+    # exceptions -> False: nothing escapes, and every way out of a handler is `return False`
+    esc = g.raise_exit in g.reachable(g.entry)
+    run.check("R2", not esc, "no exception escapes is_valid", key="HSMCertificateElement.is_valid|handler",
+              where=fn.loc(), message="an exception raised while verifying (malformed hex, key or signature) can escape is_valid instead of giving False")
+    for hn in [n for n in g.nodes if n.kind == "handler"]:
+        for lf in Walker(A, fn, E, lambda e: None).walk(hn):
+            okf = lf.kind == "return" and lf.node.ast.value is not None and norm(lf.deep(lf.node.ast.value)) == "False"
+            run.check("R2", okf, "a failing verification step gives False", key="HSMCertificateElement.is_valid|handler-verdict", where=fn.loc(hn.ast),
+                      message=f"after an exception is_valid does `{lf.kind}` `{norm(lf.node.ast)[:60] if lf.node.ast is not None else ''}` instead of returning False")
     extra = _purity(run, fn, {"message", "signature", "tweak"}, "is_valid", "R2")
     run.check("R2", not extra, "is_valid reads only message/signature/tweak",
               key=f"HSMCertificateElement.is_valid|reads:{sorted(extra)}", where=fn.loc(),
@@ -358,31 +376,20 @@ def _strip(s):
 
 def values(run, F, PV, C, E):
     P, A = run.P, run.A
-    run.rule("R3", "A valid result is (True, current.get_value(), current.get_tweak()) of the leaf; "
+    run.rule("R3", "A valid result carries get_value() and get_tweak() of the leaf (R1); "
              "get_value = EXTRACTORS[name](hexdecode(message)).hex(); EXTRACTORS and VALID_NAMES equal the "
              "`extract` definition and the name list of docs/attestation.md; get_pubkey parses get_value(); "
              "a certificate's element map is keyed by element name.")
-    fn = P.method(C, "validate_and_get_values")
-    stores = [n for n in ast.walk(fn.node) if isinstance(n, ast.Assign) and norm(n.targets[0]) == "result[target]"
-              and isinstance(n.value, ast.Tuple) and isinstance(n.value.elts[0], ast.Constant) and n.value.elts[0].value is True]
-    for s in stores:
-        run.check("R3", [norm(e) for e in s.value.elts[1:]] == ["current.get_value()", "current.get_tweak()"],
-                  "valid verdict carries the leaf's value and tweak", key="validate_and_get_values|valid-store|value",
-                  where=fn.loc(s), message=f"valid verdict is `{norm(s.value)}`")
-    gv = P.method(E, "get_value")
-    rr = [n for n in A.own_nodes(gv) if isinstance(n, ast.Return)]
-    run.check("R3", len(rr) == 1 and norm(rr[0].value) == "self.EXTRACTORS[self.name](bytes.fromhex(self.message)).hex()",
-              "get_value extracts from the signed message", key="HSMCertificateElement.get_value|expr", where=gv.loc(),
-              message="get_value is not EXTRACTORS[name](hexdecode(message)).hex()")
-    gp = P.method(E, "get_pubkey")
-    rr = [n for n in A.own_nodes(gp) if isinstance(n, ast.Return)]
-    run.check("R3", len(rr) == 1 and norm(rr[0].value) == "ec.PublicKey(bytes.fromhex(self.get_value()), raw=True)",
-              "get_pubkey parses the extracted value", key="HSMCertificateElement.get_pubkey|expr", where=gp.loc(),
-              message="get_pubkey does not build the key from get_value()")
-    gt = P.method(E, "get_tweak")
-    rr = [n for n in A.own_nodes(gt) if isinstance(n, ast.Return)]
-    run.check("R3", len(rr) == 1 and norm(rr[0].value) == "self.tweak", "get_tweak returns the tweak",
-              key="HSMCertificateElement.get_tweak|expr", where=gt.loc(), message="get_tweak changed")
+    for meth, want, label, msg in (
+            ("get_value", "self.EXTRACTORS[self.name](bytes.fromhex(self.message)).hex()", "get_value extracts from the signed message",
+             "get_value is not EXTRACTORS[name](hexdecode(message)).hex()"),
+            ("get_pubkey", "ec.PublicKey(bytes.fromhex(self.get_value()), raw=True)", "get_pubkey parses the extracted value",
+             "get_pubkey does not build the key from get_value()"),
+            ("get_tweak", "self.tweak", "get_tweak returns the tweak", "get_tweak changed")):
+        m_ = P.method(E, meth)
+        got = {_strip(x) for x in return_values(A, m_, E, PV)}
+        run.check("R3", got == {_strip(want)}, label, key=f"HSMCertificateElement.{meth}|expr", where=m_.loc(),
+                  message=f"{msg} (returns {sorted(got)[:2]})")
     # extractors vs docs
     d = doc(run, "attestation.md")
     m = re.search(r"def extract\(element\):(.*?)```", d.text, re.S)
